@@ -248,6 +248,12 @@ def rule_precedence(ctx: Ctx, rid="C02.PRECEDENCE", only_errors=False):
                       f"({'by default, no precedence declared' if not c.by_precedence else 'by the precedence table'}); the documented "
                       f"binding (not > and > or) needs {want}", site=g.mod.site(g.class_attrs.get('precedence', g.cls)),
                       text=f"{prod} / {la} -> {c.resolution}")
+    if n == 0 and not [c for c in T.conflicts if c.terminal in strength]:
+        # a stratified grammar (disjunction / conjunction / negation levels): nothing is left to a precedence table; how the
+        # operators group is then decided by the productions themselves, which the translation rule follows end to end
+        ctx.rep.ok(rid, f"{GR}:{g.cls.name}.precedence", "no shift/reduce decision among not/and/or exists: the grammar is unambiguous "
+                   "without a precedence table", nontrivial=False)
+        return
     ctx.rep.floor("operator shift/reduce decisions", n, 6)
 
 
